@@ -85,7 +85,10 @@ def run(project: Project, rep, tier: str):
         args[ps[2]] = Sc(sym.Sym("M"))
     r = I.run(SW, args)
     for ev in I.log:
-        if ev["kind"] == "shape-error":
+        if ev["kind"] == "shape-error" and not I.clean_before(ev):
+            rep.unmodelled("SW-AUG", fi, ev["node"], f"a shape disagreement is reported after values the run could not model: "
+                                                     f"{ev['message']}"[:200])
+        elif ev["kind"] == "shape-error":
             rep.refuted("SW-AUG", fi, ev["node"], f"the two projected vectors do not have equal length for all sizes: "
                                                   f"{ev['message']}")
         if ev["kind"] == "sort-columns":
